@@ -376,6 +376,11 @@ def _replay_post_commit(v, native):
         ids = json.loads(p0.stdout.decode().strip().split('\n')[-1])
         env2 = dict(env)
         if cas_fails:
+            # the internal database (~/.git-ai/internal/db) cannot be opened by the committing process: its directory is a file
+            # (the GIT_AI_TEST_DB_PATH override exists only in test-support builds; it is set as well in case this is one)
+            internal = os.path.join(home, '.git-ai', 'internal')
+            subprocess.call(['rm', '-rf', internal])
+            open(internal, 'w').write('not a directory\n')
             env2['GIT_AI_TEST_DB_PATH'] = '/dev/null/git-ai-vreplay/db'
             env2['GITAI_TEST_DB_PATH'] = '/dev/null/git-ai-vreplay/db'
         p = subprocess.run([exe, 'c08_post_commit'], input=json.dumps({'dir': repo_dir, 'parent': ids['parent'], 'commit': ids['commit']}).encode(),
